@@ -25,7 +25,7 @@ that output — whatever it contains (in particular an `Error` member does not t
 theorem end_reached_succeeds (env : Env) (fuel : Nat) (states : Json) (name : Str) (state raw out ctx : Json)
     (retries : Nat) (st : St) (h : isTrue (fld state "End") = true)
     (hL : (render out).length ≤ env.maxData) :
-    leave env (fuel + 1) states name state raw out ctx retries st = (.done out, st) := by
+    leave env (fuel + 1) states name state raw out ctx retries st = (.done out, st.exit name out) := by
   have : ¬ (render out).length > env.maxData := by omega
   simp [leave, h, this]
 
@@ -38,11 +38,13 @@ theorem end_over_limit_is_data_limit_error (env : Env) (fuel : Nat) (states : Js
       handleErr env fuel states name state raw ctx retries (S "States.DataLimitExceeded") (S "m") st := by
   simp [leave, h, hL]
 
-/-- without End the successor is exactly `Next`, entered with the state's output as its input -/
+/-- without End the successor is exactly `Next`, entered with the state's output as its input (and the
+state is recorded as exited with that output) -/
 theorem next_followed (env : Env) (fuel : Nat) (states : Json) (name next : Str) (state raw out ctx : Json)
     (retries : Nat) (st : St) (hE : isTrue (fld state "End") = false) (hN : fldStr state "Next" = some next)
     (hL : (render out).length ≤ env.maxData) :
-    leave env (fuel + 1) states name state raw out ctx retries st = runFrom env fuel states next out ctx 0 st := by
+    leave env (fuel + 1) states name state raw out ctx retries st =
+      runFrom env fuel states next out ctx 0 (st.exit name out) := by
   have : ¬ (render out).length > env.maxData := by omega
   simp [leave, hE, hN, this]
 
@@ -61,7 +63,7 @@ theorem succeed_state (env : Env) (fuel : Nat) (states : Json) (name : Str) (sta
     (hi : applyPath data ctx (pathArg state "InputPath") = .ok input)
     (ho : applyPath input ctx (pathArg state "OutputPath") = .ok out)
     (hL : (render out).length ≤ env.maxData) :
-    runState env (fuel + 1) states name state data ctx retries st = (.done out, st) := by
+    runState env (fuel + 1) states name state data ctx retries st = (.done out, st.exit name out) := by
   have h1 : (S "Succeed" = S "Pass") = False := by decide
   have : ¬ (render out).length > env.maxData := by omega
   simp [runState, h, h1, hi, ho, this]
@@ -159,7 +161,7 @@ state's own Retry/Catch, with the fan-out state's raw input -/
 theorem fanout_failure_goes_to_handler (env : Env) (fuel : Nat) (states : Json) (name : Str)
     (state data ctx : Json) (e : Str) (c : Option Json) (f : Bool) (retries : Nat) (st : St) :
     ∃ msg, joinAndLeave env (fuel + 1) states name state data ctx retries (.error (.failed e c f)) st =
-      handleErr env fuel states name state data ctx retries e msg st := by
+      handleErr env fuel states name state data ctx retries e msg { st with fanFail := true } := by
   cases h : isTrue c with
   | false => exact ⟨[], by simp [joinAndLeave, h]⟩
   | true => exact ⟨S "m", by simp [joinAndLeave, h]⟩
